@@ -33,6 +33,7 @@ struct SigGen {
     if (c < 31 && ((r.mute >> c) & 1)) return 0.f;
     switch (r.sig) {
       case 1: return 0.f;                                   // silence
+      case 6: if (t >= r.n / 5 && t < r.n - r.n / 5) return 0.f; break;   // tone, a long stretch of digital silence (packets of a few bytes: one page spans many seconds), tone
       case 5: {                                             // low-level noise only
         uint64_t x = mix64(r.seed + c, (uint64_t)t); return (float)(((x >> 40) / 8388608.0 - 1.0) * 0.02);
       }
